@@ -60,10 +60,11 @@ fn main() -> anyhow::Result<()> {
 
         let vertices = args.vertices.unwrap();
 
+        // the complete graph on no vertices has no edges (vertices - 1 would underflow)
         let edges = if args.undirected {
-            (vertices * (vertices - 1)) / 2
+            (vertices * vertices.saturating_sub(1)) / 2
         } else {
-            vertices * (vertices - 1)
+            vertices * vertices.saturating_sub(1)
         };
 
         generate_graph(vertices, edges, args.undirected)?
